@@ -1177,6 +1177,21 @@ Proof.
   destruct (uci_move_parse s) as [t| |]; try discriminate. apply str_eqb_eq in H1. subst. auto.
 Qed.
 
+(* the move parser is total without panics, and accepts only texts of 4 or 5 characters *)
+Theorem uci_no_panic s : uci_move_parse s <> Panic.
+Proof.
+  unfold uci_move_parse. destruct s as [|c1 [|c2 [|c3 [|c4 r4]]]]; try discriminate.
+  destruct (square_from_chars c1 c2); [|discriminate]. destruct (square_from_chars c3 c4); [|discriminate].
+  destruct r4 as [|c5 [|c6 r6]]; try discriminate. destruct (piece_from_char c5); discriminate.
+Qed.
+
+Theorem uci_ok_length s t : uci_move_parse s = Ok t -> (length s = 4 \/ length s = 5)%nat.
+Proof.
+  unfold uci_move_parse. destruct s as [|c1 [|c2 [|c3 [|c4 r4]]]]; try discriminate.
+  destruct (square_from_chars c1 c2); [|discriminate]. destruct (square_from_chars c3 c4); [|discriminate].
+  destruct r4 as [|c5 [|c6 r6]]; try discriminate; cbn [length]; auto.
+Qed.
+
 (* ------------------------------------------------------------------ the property statements *)
 Theorem C19_decode_thm : forall s doc v, schema_wf s = true -> conforms s doc v -> decode s doc = Ok v.
 Proof. intros s doc v Hwf H. unfold decode. now apply decode_conforms. Qed.
